@@ -1,14 +1,14 @@
 /-
   Mini-model of *when parse actions fire*: the `do_actions` / `callDuringTry` gate of
-  `ParserElement._parseNoCache` (core.py:864) and the constructs that match "on trial":
+  `ParserElement._parseNoCache` (core.py:870) and the constructs that match "on trial":
 
-    Or first pass            core.py:4275-4300   e.try_parse(instring, loc, raise_fatal=True)   (do_actions=False)
-    Or second pass           core.py:4302-4336
-    Each first pass          core.py:4618-4640   e.try_parse(instring, tmpLoc, raise_fatal=True)
-    Each final pass          core.py:4664-4667
-    SkipTo scan / fail_on    core.py:5507-5531   failOn.canParseNext(...), expr._parse(..., do_actions=False, callPreParse=False)
-    stop_on                  core.py:5133-5148   self.not_ender.try_parse(instring, loc)
-    NotAny / FollowedBy      core.py:5093, 4930  (pass the caller's do_actions through)
+    Or first pass            core.py:4286-4311   e.try_parse(instring, loc, raise_fatal=True)   (do_actions=False)
+    Or second pass           core.py:4313-4347
+    Each first pass          core.py:4629-4651   e.try_parse(instring, tmpLoc, raise_fatal=True)
+    Each final pass          core.py:4675-4678
+    SkipTo scan / fail_on    core.py:5519-5543   failOn.canParseNext(...), expr._parse(..., do_actions=False, callPreParse=False)
+    stop_on                  core.py:5145-5160   self.not_ender.try_parse(instring, loc)
+    NotAny / FollowedBy      core.py:5105, 4941  (pass the caller's do_actions through)
     Opt, ZeroOrMore, And, MatchFirst
 
   A self-contained expression language; tokens are not modelled, only success/failure, the end location,
@@ -61,7 +61,7 @@ abbrev P := E → Nat → Bool → Bool → PR
 
 def isWs (c : Char) : Bool := c == ' ' || c == '\t' || c == '\n' || c == '\r'
 
-/-- core.py:797-802: `while loc < instrlen and instring[loc] in white_chars: loc += 1` -/
+/-- core.py:803-808: `while loc < instrlen and instring[loc] in white_chars: loc += 1` -/
 def skipWsFrom : List Char → Nat → Nat
   | [], loc => loc
   | c :: cs, loc => if isWs c then skipWsFrom cs (loc + 1) else loc
@@ -73,23 +73,23 @@ mutual
 def skips : E → Bool
   | .lit _ => true
   | .act _ _ e => skips e
-  | .seq a _ => skips a                       -- core.py:4120
-  | .alt a b => skips a && skips b            -- core.py:4410
-  | .or es => skipsAll es                     -- core.py:4252
-  | .each _ => true                           -- core.py:4562
-  | .skipTo t _ _ => skips t                  -- core.py:4695 (ParseElementEnhance)
+  | .seq a _ => skips a                       -- core.py:4131
+  | .alt a b => skips a && skips b            -- core.py:4421
+  | .or es => skipsAll es                     -- core.py:4263
+  | .each _ => true                           -- core.py:4573
+  | .skipTo t _ _ => skips t                  -- core.py:4706 (ParseElementEnhance)
   | .many e _ => skips e
   | .star e _ => skips e
   | .opt e => skips e
   | .followedBy e => skips e
-  | .notAny _ => false                        -- core.py:5088
+  | .notAny _ => false                        -- core.py:5100
 def skipsAll : List E → Bool
   | [] => true
   | e :: es => skips e && skipsAll es
 end
 
-/-- the element's `callPreparse` attribute: `False` for ParseExpression (core.py:3918) except And (core.py:4125);
-    ParseElementEnhance copies it from its expression (core.py:4697) -/
+/-- the element's `callPreparse` attribute: `False` for ParseExpression (core.py:3929) except And (core.py:4136);
+    ParseElementEnhance copies it from its expression (core.py:4708) -/
 def callsPre : E → Bool
   | .lit _ => true
   | .act _ _ e => callsPre e
@@ -104,12 +104,12 @@ def callsPre : E → Bool
   | .followedBy e => callsPre e
   | .notAny e => callsPre e
 
-/-- `pre_loc` of `_parseNoCache` (core.py:846-849): `if callPreParse and self.callPreparse: self.preParse(...)`,
-    and `preParse` skips only when `self.skipWhitespace` (core.py:797) -/
+/-- `pre_loc` of `_parseNoCache` (core.py:852-855): `if callPreParse and self.callPreparse: self.preParse(...)`,
+    and `preParse` skips only when `self.skipWhitespace` (core.py:803) -/
 def preLoc (s : List Char) (e : E) (loc : Nat) (cp : Bool) : Nat :=
   if cp && callsPre e && skips e then skipWs s loc else loc
 
-/-- core.py:890-904 with logging actions: each call appends `(id, tokens_start)`; the first exception stops -/
+/-- core.py:896-910 with logging actions: each call appends `(id, tokens_start)`; the first exception stops -/
 def fireActs (start endLoc : Nat) : List Act → PR
   | [] => (.ok endLoc, [])
   | a :: as =>
@@ -119,14 +119,14 @@ def fireActs (start endLoc : Nat) : List Act → PR
       | .fatal => (.fatal, [(a.id, start)])
       | .err => (.err, [(a.id, start)])
 
-/-- `e.try_parse(instring, loc, raise_fatal=rf)` (core.py:914-927), always with `do_actions=False` here -/
+/-- `e.try_parse(instring, loc, raise_fatal=rf)` (core.py:920-933), always with `do_actions=False` here -/
 def tryParse (p : P) (e : E) (loc : Nat) (raiseFatal : Bool) : PR :=
   let r := p e loc false true
   match r.1 with
   | .fatal => if raiseFatal then r else (.fail, r.2)
   | _ => r
 
-/-- `e.can_parse_next(instring, loc, do_actions=da)` (core.py:929-935): `some b` or an escaping exception -/
+/-- `e.can_parse_next(instring, loc, do_actions=da)` (core.py:935-941): `some b` or an escaping exception -/
 def canParseNext (p : P) (e : E) (loc : Nat) (da : Bool) : (Option Bool × R) × List Ev :=
   let r := p e loc da true
   match r.1 with
@@ -152,7 +152,7 @@ structure OrPass where
   abort : Option R      -- an escaping non-parse exception / hang
   tr : List Ev
 
-/-- first pass, core.py:4275-4300 -/
+/-- first pass, core.py:4286-4311 -/
 def orFirst (p : P) (loc : Nat) : List E → OrPass
   | [] => ⟨[], false, none, []⟩
   | e :: es =>
@@ -163,7 +163,7 @@ def orFirst (p : P) (loc : Nat) : List E → OrPass
       | .fatal => let q := orFirst p loc es; ⟨q.ms, true, q.abort, r.2 ++ q.tr⟩
       | x => ⟨[], false, some x, r.2⟩
 
-/-- second pass with `do_actions=True`, core.py:4313-4333; `longest = (-1, None)` is `none` -/
+/-- second pass with `do_actions=True`, core.py:4324-4344; `longest = (-1, None)` is `none` -/
 def orSecond (p : P) (loc : Nat) : List (Nat × E) → Option Nat → (Option R) × List Ev
   | [], longest => (longest.map .ok, [])
   | (l1, e1) :: rest, longest =>
@@ -190,7 +190,7 @@ def orParse (p : P) (es : List E) (loc : Nat) (da : Bool) : PR :=
     match ms with
     | (_, best) :: _ =>
         if !da then
-          let r := p best loc false true          -- core.py:4307-4311
+          let r := p best loc false true          -- core.py:4318-4322
           (r.1, f.tr ++ r.2)
         else
           match orSecond p loc ms none with
@@ -209,7 +209,7 @@ structure EachPass where
   abort : Option R
   tr : List Ev
 
-/-- one sweep `for e in tmpExprs`, core.py:4624-4640 -/
+/-- one sweep `for e in tmpExprs`, core.py:4635-4651 -/
 def eachSweep (p : P) : List E → Nat → EachPass
   | [], loc => ⟨loc, [], [], 0, false, none, []⟩
   | e :: es, loc =>
@@ -223,7 +223,7 @@ def eachSweep (p : P) : List E → Nat → EachPass
                   ⟨q.loc, q.matched, e :: q.remaining, q.nFailed + 1, true, q.abort, r.2 ++ q.tr⟩
       | x => ⟨loc, [], e :: es, 0, false, some x, r.2⟩
 
-/-- `while keepMatching`, core.py:4618-4642; `n` bounds the number of sweeps (each productive sweep removes an
+/-- `while keepMatching`, core.py:4629-4653; `n` bounds the number of sweeps (each productive sweep removes an
     element, so `remaining.length + 1` sweeps suffice) -/
 def eachLoop (p : P) : Nat → List E → Nat → List E → (Option R × List E × List E × Bool) × List Ev
   | 0, rem, _, order => ((some .hang, order, rem, false), [])
@@ -237,7 +237,7 @@ def eachLoop (p : P) : Nat → List E → Nat → List E → (Option R × List E
           let r := eachLoop p n q.remaining q.loc (order ++ q.matched)
           (r.1, q.tr ++ r.2)
 
-/-- final pass `for e in matchOrder: loc, results = e._parse(instring, loc, do_actions)`, core.py:4664-4667 -/
+/-- final pass `for e in matchOrder: loc, results = e._parse(instring, loc, do_actions)`, core.py:4675-4678 -/
 def seqAll (p : P) (da : Bool) : List E → Nat → PR
   | [], loc => (.ok loc, [])
   | e :: es, loc =>
@@ -250,13 +250,13 @@ def eachParse (p : P) (es : List E) (loc : Nat) (da : Bool) : PR :=
   match eachLoop p (es.length + 1) es loc [] with
   | ((some x, _, _, _), tr) => (x, tr)
   | ((none, order, rem, fatals), tr) =>
-      if fatals then (.fatal, tr)                     -- core.py:4645-4651
-      else if !rem.isEmpty then (.fail, tr)           -- core.py:4653-4659
+      if fatals then (.fatal, tr)                     -- core.py:4656-4662
+      else if !rem.isEmpty then (.fail, tr)           -- core.py:4664-4670
       else let r := seqAll p da order loc; (r.1, tr ++ r.2)
 
 /-! ### SkipTo -/
 
-/-- the `while tmploc <= instrlen` scan, core.py:5507-5535; `n` = remaining positions -/
+/-- the `while tmploc <= instrlen` scan, core.py:5519-5547; `n` = remaining positions -/
 def skipScan (p : P) (t : E) (failOn : Option E) : Nat → Nat → (Option R × Nat) × List Ev
   | 0, tmploc => ((some .fail, tmploc), [])              -- ran off the end: `else: raise ParseException`
   | n + 1, tmploc =>
@@ -282,7 +282,7 @@ def skipToParse (p : P) (slen : Nat) (t : E) (failOn : Option E) (incl : Bool) (
   | ((some x, _), tr) => (x, tr)
   | ((none, tmploc), tr) =>
       if incl then
-        let r := p t tmploc da false        -- core.py:5542-5544
+        let r := p t tmploc da false        -- core.py:5554-5556
         (r.1, tr ++ r.2)
       else (.ok tmploc, tr)
 
@@ -294,7 +294,7 @@ def enderCheck (p : P) (stopOn : Option E) (loc : Nat) : (Option Bool × R) × L
   | none => ((some false, .fail), [])
   | some en => canParseNext p en loc false
 
-/-- the `while 1:` of `_MultipleMatch.parseImpl`, core.py:5139-5150; `n` bounds the iterations (each must advance) -/
+/-- the `while 1:` of `_MultipleMatch.parseImpl`, core.py:5151-5162; `n` bounds the iterations (each must advance) -/
 def manyLoop (p : P) (e : E) (stopOn : Option E) (da : Bool) : Nat → Nat → PR
   | 0, _ => (.hang, [])
   | n + 1, loc =>
@@ -311,11 +311,11 @@ def manyLoop (p : P) (e : E) (stopOn : Option E) (da : Bool) : Nat → Nat → P
         | x => (x, tr ++ r.2)
 
 def manyParse (p : P) (slen : Nat) (e : E) (stopOn : Option E) (loc : Nat) (da : Bool) : PR :=
-  match enderCheck p stopOn loc with                  -- core.py:5135-5136 (outside the try)
+  match enderCheck p stopOn loc with                  -- core.py:5147-5148 (outside the try)
   | ((some true, _), tr) => (.fail, tr)
   | ((none, x), tr) => (x, tr)
   | ((some false, _), tr) =>
-    let r := p e loc da true                          -- core.py:5137
+    let r := p e loc da true                          -- core.py:5149
     match r.1 with
     | .ok l2 => let q := manyLoop p e stopOn da (slen + 2 - l2) l2; (q.1, tr ++ r.2 ++ q.2)
     | x => (x, tr ++ r.2)
@@ -330,7 +330,7 @@ def parse (s : List Char) : Nat → P
     match e with
     | .lit c => if s[pre]? == some c then (.ok (pre + 1), []) else (.fail, [])
     | .act as cdt e' =>
-        -- the element is `e'` carrying the actions: `tokens_start = pre_loc` (core.py:850), gate core.py:864
+        -- the element is `e'` carrying the actions: `tokens_start = pre_loc` (core.py:856), gate core.py:870
         let r := p e' loc da cp
         match r.1 with
         | .ok l2 =>
@@ -339,7 +339,7 @@ def parse (s : List Char) : Nat → P
             else r
         | _ => r
     | .seq a b =>
-        let r := p a pre da false               -- core.py:4165 callPreParse=False
+        let r := p a pre da false               -- core.py:4176 callPreParse=False
         match r.1 with
         | .ok l1 => let q := p b l1 da true; (q.1, r.2 ++ q.2)
         | _ => r
@@ -355,20 +355,20 @@ def parse (s : List Char) : Nat → P
     | .star e' st =>
         let r := manyParse p s.length e' st pre da
         match r.1 with
-        | .fail => (.ok pre, r.2)               -- core.py:5238-5239
+        | .fail => (.ok pre, r.2)               -- core.py:5250-5251
         | _ => r
     | .opt e' =>
-        let r := p e' pre da false              -- core.py:5371-5373
+        let r := p e' pre da false              -- core.py:5383-5385
         match r.1 with
         | .fail => (.ok pre, r.2)
         | _ => r
     | .followedBy e' =>
-        let r := p e' pre da true               -- core.py:4930
+        let r := p e' pre da true               -- core.py:4941
         match r.1 with
         | .ok _ => (.ok pre, r.2)
         | _ => r
     | .notAny e' =>
-        match canParseNext p e' pre da with      -- core.py:5094
+        match canParseNext p e' pre da with      -- core.py:5106
         | ((some true, _), tr) => (.fail, tr)
         | ((some false, _), tr) => (.ok pre, tr)
         | ((none, x), tr) => (x, tr)
